@@ -29,6 +29,15 @@ func main() {
 		for _, k := range sortedKeys(m) {
 			fmt.Println(k, m[k])
 		}
+	case "immut":
+		e, err := LoadEngine("/repo", []string{os.Args[2]}, "/verif/spec")
+		if err != nil {
+			fmt.Println(err)
+			os.Exit(2)
+		}
+		for _, k := range sortedKeys(e.immutable) {
+			fmt.Println(k)
+		}
 	case "abs":
 		b, _ := os.ReadFile(os.Args[2])
 		fmt.Print(abstractStrings(string(b)))
